@@ -118,7 +118,7 @@ _constant_relop_any = {
     ("posinf", "positive"): (True, None, None, False, None, None),
     ("neginf", "positive"): (False, False, True, True, False, True),
     ("largest", "positive"): (None, None, None, None, None, None),
-    ("smallest", "positive"): (None, False, True, None, None, None),
+    ("smallest", "positive"): (None, None, None, None, None, None),
     ("smallest_subnormal", "positive"): (None, False, True, None, None, None),
     ("eps", "positive"): (None, None, None, None, None, None),
     (1, "positive"): (None, None, None, None, None, None),
@@ -126,8 +126,8 @@ _constant_relop_any = {
     ("posinf", "nonnegative"): (True, None, None, False, None, None),
     ("neginf", "nonnegative"): (False, False, True, True, False, True),
     ("largest", "nonnegative"): (None, None, None, None, None, None),
-    ("smallest", "nonnegative"): (None, False, True, None, None, None),
-    ("smallest_subnormal", "nonnegative"): (None, False, True, None, None, None),
+    ("smallest", "nonnegative"): (None, None, None, None, None, None),
+    ("smallest_subnormal", "nonnegative"): (None, None, None, None, None, None),
     ("eps", "nonnegative"): (None, None, None, None, None, None),
     (1, "nonnegative"): (None, None, None, None, None, None),
     (0, "nonnegative"): (None, False, True, None, None, None),
@@ -181,12 +181,12 @@ _any_relop_any = {
     ("nonnegative", "positive"): (None, None, None, None, None, None),
     ("nonnegative", "nonnegative"): (None, None, None, None, None, None),
     ("nonnegative", "negative"): (True, True, False, False, False, True),
-    ("nonnegative", "nonpositive"): (True, True, False, False, False, True),
+    ("nonnegative", "nonpositive"): (True, None, None, False, None, None),
     ("nonpositive", "finite"): (None, None, None, None, None, None),
     ("nonpositive", "nonpositive"): (None, None, None, None, None, None),
     ("nonpositive", "negative"): (None, None, None, None, None, None),
     ("nonpositive", "positive"): (False, False, True, True, False, True),
-    ("nonpositive", "nonnegative"): (False, False, True, True, False, True),
+    ("nonpositive", "nonnegative"): (None, False, True, None, None, None),
 }
 
 
